@@ -34,6 +34,8 @@ class Engine:
         self.fresh = 0
         self.trace = False
         self.prefix_stubs = []
+        self.concretize_stores = False
+        self.region_hook = None       # called as hook(st, 'load'|'store', region, index, nbytes, value) on array-region accesses
 
     # ------------------------------------------------------------------ solver
     def _sync(self, pc):
@@ -257,6 +259,9 @@ class Engine:
         if o.func is not None: raise Violation('bad-pointer', f"{what} through function pointer {o.name}")
         if off < 0 or off + n > o.size:
             raise Violation('out-of-bounds', f"{what} of {n} bytes at offset {off} of object '{o.name}' (size {o.size})")
+        if o.guard:
+            for lo, hi, msg in o.guard:
+                if off < hi and off + n > lo: raise Violation('out-of-bounds', f"{what} at offset {off} of '{o.name}': {msg}")
 
     def _region_idx(self, st, r, off, nbytes, what):
         rel = simp(bv(off, 64) - z3.BitVecVal(r.base, 64)) if not is_c(off) else off - r.base
@@ -289,6 +294,7 @@ class Engine:
             for r in o.regions:
                 if r.base <= off < r.base + r.esz*r.cnt:
                     idx, sub = divmod(off - r.base, r.esz)
+                    if self.region_hook: self.region_hook(st, 'load', r, idx, nbytes, None)
                     if sub == 0 and nbytes == r.esz: return r.get(idx)
                     if sub + nbytes <= r.esz:
                         w = r.get(idx)
@@ -297,6 +303,7 @@ class Engine:
             return self._load_bytes(st, o, off, nbytes, isptr)
         for r in o.regions:
             idx, sub = self._region_idx(st, r, off, nbytes, 'load')
+            if self.region_hook: self.region_hook(st, 'load', r, idx, nbytes, None)
             w = r.get(idx)
             if nbytes == r.esz and is_c(sub) and sub == 0: return w if is_c(w) else w
             if nbytes < r.esz:
@@ -354,6 +361,7 @@ class Engine:
                     if isinstance(v, (Undef, Ptr, PtrIte)): raise Unsupported("store of non-integer into array region")
                     if isinstance(v, PV): v = self.use(st, v, 'store to memory array')
                     idx, sub = divmod(off - r.base, r.esz)
+                    if self.region_hook: self.region_hook(st, 'store', r, idx, nbytes, v)
                     if sub == 0 and nbytes == r.esz: r.put(idx, v); return
                     if sub + nbytes <= r.esz:
                         w = bv(r.get(idx), r.esz*8); parts = []
@@ -375,6 +383,10 @@ class Engine:
             if isinstance(v, (Undef, Ptr, PtrIte)): raise Unsupported("store of non-integer into array region")
             if isinstance(v, PV): v = self.use(st, v, 'store to memory array')
             idx, sub = self._region_idx(st, r, off, nbytes, 'store')
+            if self.concretize_stores and not is_c(idx):
+                # keep later reads of other words concrete (an interpreter fetching code from the same array): fork over the store index
+                idx = self.concretize(st, idx, 'index of a store into an array region')
+            if self.region_hook: self.region_hook(st, 'store', r, idx, nbytes, v)
             if nbytes == r.esz: r.put(idx, v); return
             raise Unsupported("symbolic sub-element store")
         off = self.concretize(st, off, f"symbolic offset into object '{o.name}'")
@@ -1050,6 +1062,13 @@ class Engine:
                 if rt.k == 'struct':
                     fo, ft = M.field_off(rt, v); off = self.addoff(off, fo, 64, 1); t = ft
                 elif rt.k == 'array':
+                    if rt.a > 1:       # index into a fixed-size array: must stay inside it (one-past allowed for pointer formation)
+                        w_ = M.resolve(it).a
+                        if is_c(v):
+                            if sgn(v & mask(w_), w_) < 0 or sgn(v & mask(w_), w_) > rt.a:
+                                raise Violation('out-of-bounds', f"index {sgn(v & mask(w_), w_)} into a {rt.a}-element array")
+                        else:
+                            self.must(st, z3.ULE(v, rt.a), 'out-of-bounds', f"index into a {rt.a}-element array out of range")
                     sz = M.layout(rt.b)[0]; off = self.addoff(off, v, M.resolve(it).a, sz); t = rt.b
                 else: raise Unsupported("gep into " + repr(rt))
         return Ptr(p.obj, off)
